@@ -282,9 +282,25 @@ Theorem C17_wire_model_is_table : forall nt,
 Proof. exact wire_model_is_table. Qed.
 Print Assumptions C17_wire_model_is_table.
 
-(* the wire entry c17_check_table decides the three preconditions *)
+(* GENERAL: the cover precondition can be read off the motif table alone: if two table motifs with different IDs
+   never share two vertices (pairwise_okb, the assumption of the method as it is usually stated) then cover_okb
+   holds.  cover_okb is strictly weaker (it only looks at ADJACENT vertices: example cycles_opp below). *)
+Theorem C17_cover_from_pairwise : forall nt,
+    net_okb nt = true -> pairwise_okb nt = true -> cover_okb nt = true.
+Proof. exact cover_from_pairwise. Qed.
+Print Assumptions C17_cover_from_pairwise.
+
+(* END TO END with preconditions on the motif table and the presence of its edges only *)
+Theorem C17_object_is_table_pairwise : forall nt,
+    net_okb nt = true -> table_okb nt = true -> pairwise_okb nt = true ->
+    forall T phis, Forall2 Qeq (mp_object nt T phis) (map (mp_table nt T) phis).
+Proof. exact object_is_table_pairwise. Qed.
+Print Assumptions C17_object_is_table_pairwise.
+
+(* the wire entry c17_check_table decides the preconditions (and pairwise_okb) *)
 Theorem C17_check_table_sound : forall t, c17_check_table t = of_bool true ->
-    table_okb (t_net t) = true /\ cover_okb (t_net t) = true /\ net_okb (t_net t) = true.
+    table_okb (t_net t) = true /\ cover_okb (t_net t) = true /\ net_okb (t_net t) = true
+    /\ pairwise_okb (t_net t) = true.
 Proof. exact c17_check_table_spec. Qed.
 Print Assumptions C17_check_table_sound.
 
@@ -294,6 +310,7 @@ Example C17_table_nonvacuous :
   table_okb ring3 = true /\ cover_okb ring3 = true /\ net_okb ring3 = true
   /\ table_okb two_triangles = true /\ cover_okb two_triangles = true /\ net_okb two_triangles = true
   /\ table_okb one_big = true /\ cover_okb one_big = true /\ net_okb one_big = true
+  /\ pairwise_okb ring3 = true /\ pairwise_okb two_triangles = true /\ pairwise_okb one_big = true
   /\ motifs_of ring3 2 = [2; 3; 4]%nat /\ ids_at ring3 2 = [2; 3; 4]%nat
   /\ motifs_of one_big 0 = [3; 8]%nat /\ ids_at one_big 0 = [3; 8]%nat
   /\ Qred (mp_table ring3 1 (1 # 2)) = 43 # 128
@@ -308,7 +325,14 @@ Proof. vm_compute. repeat split; reflexivity. Qed.
    motif 5's vertex list), and the code-shaped specification differs from the message equations (mp_table).
    phantom: ring3 with a table entry (ID 9 on the vertices 0, 3) none of whose edges is in the network: net_okb and
    cover_okb hold, table_okb fails, and the table view of vertex 0 differs from the edge-label view.
-   shadow: ring3 with a second table entry of ID 1: table_okb fails, motifs_of lists ID 1 twice. *)
+   shadow: ring3 with a second table entry of ID 1: table_okb fails, motifs_of lists ID 1 twice.
+   cycles_opp: two 4-cycles sharing two OPPOSITE vertices: pairwise_okb fails but cover_okb (and so every table
+   theorem) holds: cover_okb is the weaker precondition. *)
+Definition cycles_opp : net :=
+  mk_net [0; 1; 2; 3; 4; 5]%nat
+         [(0, 1, 1); (1, 2, 1); (2, 3, 1); (3, 0, 1); (0, 4, 2); (4, 2, 2); (2, 5, 2); (5, 0, 2)]%nat
+         [mk_motif 1 [0; 1; 2; 3]%nat [(0, 1); (1, 2); (2, 3); (3, 0)]%nat;
+          mk_motif 2 [0; 4; 2; 5]%nat [(0, 4); (4, 2); (2, 5); (5, 0)]%nat].
 Definition overlap2 : net :=
   mk_net [0; 1; 2]%nat
          [(0, 2, 5); (2, 1, 5); (0, 1, 6)]%nat
@@ -325,5 +349,10 @@ Example C17_table_preconditions_needed :
   /\ net_okb phantom = true /\ cover_okb phantom = true /\ table_okb phantom = false
   /\ ids_at phantom 0 = [1; 3]%nat /\ motifs_of phantom 0 = [1; 3; 9]%nat
   /\ net_okb shadow = true /\ cover_okb shadow = true /\ table_okb shadow = false
-  /\ motifs_of shadow 0 = [1; 3; 1]%nat.
+  /\ motifs_of shadow 0 = [1; 3; 1]%nat
+  /\ pairwise_okb overlap2 = false
+  /\ net_okb cycles_opp = true /\ table_okb cycles_opp = true /\ cover_okb cycles_opp = true
+  /\ pairwise_okb cycles_opp = false
+  /\ Qred (mp_spec cycles_opp 1 (1 # 2)) = Qred (mp_table cycles_opp 1 (1 # 2))
+  /\ Qlt 0 (mp_table cycles_opp 1 (1 # 2)).
 Proof. vm_compute. repeat split; reflexivity. Qed.
